@@ -323,3 +323,8 @@ pub fn describe_msg(s: &SendStep) -> String {
 
 /// property-specific additions to the evidence part (e.g. exhaustive sub-sweeps)
 pub fn extra_evidence(_id: &str, _part: &mut crate::runner::Part) {}
+
+/// `predict`, with the alternative chosen where the observation fits it (see `model::predict_obs`).
+pub fn predict_seen(world: &World, before: &crate::model::ModelState, s: &SendStep, o: &SendObs, reading: crate::model::Reading) -> crate::model::Pred {
+    crate::model::predict_obs(&world.root, before, s, reading, o.calls.len(), &o.result, &o.out, &world.adopt())
+}
